@@ -158,3 +158,26 @@ func shortStr(s string) string {
 	}
 	return s
 }
+
+// Canonical renders the tree as sorted text lines (hex paths/keys, value hash and length, sequences):
+// a stable, byte-exact digest used for the golden corpus.
+func Canonical(b *Bucket) []string {
+	var out []string
+	var rec func(cur *Bucket, path string)
+	rec = func(cur *Bucket, path string) {
+		out = append(out, fmt.Sprintf("B %s seq=%d keys=%d buckets=%d", path, cur.Seq, len(cur.Keys), len(cur.Sub)))
+		for _, k := range cur.KeyNames() {
+			v := cur.Keys[k]
+			var h uint64 = 14695981039346656037
+			for _, c := range v {
+				h = (h ^ uint64(c)) * 1099511628211
+			}
+			out = append(out, fmt.Sprintf("K %s/%x len=%d fnv=%016x", path, k, len(v), h))
+		}
+		for _, n := range cur.SubNames() {
+			rec(cur.Sub[n], path+"/"+fmt.Sprintf("%x", n))
+		}
+	}
+	rec(b, "")
+	return out
+}
